@@ -119,7 +119,11 @@ func (g *Gateway) setSendReceiveBuffers(conn net.Conn) error {
 	if !valConn.IsValid() {
 		return errors.New("cannot find conn field")
 	}
-	valConn = valConn.Elem().Elem()
+	// a tls.Conn holds a net.Conn (interface -> *net.TCPConn -> net.TCPConn), without
+	// TLS the connection is the *net.TCPConn itself and conn is its embedded struct
+	if valConn.Kind() == reflect.Interface {
+		valConn = valConn.Elem().Elem()
+	}
 
 	// net.FD
 	ptrNetFd := valConn.FieldByName("fd")
